@@ -634,6 +634,8 @@ class _PathEval:
                 self.env[st.targets[0].id] = st.value
             elif isinstance(st, ast.Expr) and isinstance(st.value, ast.Constant):
                 continue
+            elif isinstance(st, (ast.Assert, ast.Pass)):
+                continue  # cannot change what is returned
             else:
                 self.bad(f"statement `{src(st)[:60]}` not understood")
         return None
